@@ -243,6 +243,47 @@ IDF039 I 16 0.005   IDF040 I 16 0.005
 """
 
 
+# Kind and width of every other numeric data field (name:KINDwidth), resolution not pinned.  Reviewed by meaning:
+# the two's-complement ones are exactly the signed quantities (coordinate and angle differences, corrections and
+# their rates, harmonic terms, clock polynomial coefficients, group delays, gradients, residual means); identifiers,
+# counters, indicators, masks, epochs, week numbers, eccentricities, square roots and other magnitudes are unsigned.
+_FIELD_KINDS_REST = """
+DF001:U1 DF001_1:U1 DF001_2:U2 DF001_3:U3 DF001_7:U7 DF005:U1 DF007:U1 DF008:U3 DF010:U1 DF016:U2 DF021:U6
+DF022:U1 DF023:U1 DF024:U1 DF029:U8 DF031:U8 DF032:U8 DF036:U1 DF037:U3 DF039:U1 DF046:U2 DF051:U16 DF052:U17
+DF053:U5 DF054:U8 DF055:U12 DF056:U1 DF057:U16 DF058:U5 DF059:U8 DF060:U12 DF061:U12 DF062:I20 DF063:I21
+DF064:I23 DF065:U23 DF066:U1 DF067:U4 DF068:U6 DF069:I17 DF070:I17 DF072:U4 DF073:U8 DF074:U2 DF075:U3
+DF077:U4 DF078:U2 DF080:U8 DF103:U1 DF104:U1 DF105:U1 DF106:U2 DF107:U12 DF108:U1 DF109:U1 DF110:U7 DF120:U1
+DF122:U2 DF123:U1 DF126:U5 DF127:U1 DF128:U4 DF129:U11 DF130:U2 DF131:U1 DF132:U11 DF134:U5 DF136:U1 DF137:U1
+DF138:U7 DF139:U8 DF141:U1 DF142:U1 DF143:U5 DF145:U5 DF147:U8 DF148:U10 DF149:U5 DF150:U4 DF151:U2 DF152:I19
+DF153:I20 DF154:U14 DF155:U14 DF156:I23 DF157:I23 DF158:I23 DF159:I32 DF160:I32 DF161:I32 DF162:I25 DF163:I35
+DF164:I35 DF165:I35 DF166:U24 DF167:U25 DF168:U24 DF169:U25 DF170:U6 DF171:I34 DF172:I35 DF173:U30 DF174:U36
+DF175:I35 DF176:I34 DF177:I35 DF178:I34 DF179:I34 DF180:U36 DF181:I35 DF182:U1 DF183:I34 DF184:I35 DF185:U35
+DF186:I26 DF187:U30 DF188:U36 DF189:I35 DF190:U1 DF191:U1 DF192:I21 DF193:I22 DF194:U12 DF195:U12 DF196:I8
+DF197:I8 DF198:I15 DF199:I9 DF200:I9 DF201:I9 DF202:I25 DF203:U26 DF204:U12 DF205:U12 DF206:I10 DF207:I10
+DF208:I15 DF209:I9 DF210:I9 DF211:I9 DF212:U2 DF213:U2 DF214:U3 DF215:U3 DF216:U3 DF217:U3 DF218:U8 DF219:U9
+DF220:U6 DF221:U10 DF222:U10 DF223:U7 DF224:U20 DF225:U17 DF226:U12 DF227:U8 DF229:U8 DF231:U8 DF233:U20
+DF234:U4 DF235:U2 DF236:U3 DF237:I17 DF238:I17 DF239:U8 DF240:U20 DF241:U17 DF242:I12 DF243:I12 DF244:I14
+DF245:I14 DF252:U6 DF286:U8 DF287:U2 DF288:U1 DF289:U12 DF290:U10 DF291:U8 DF292:I14 DF293:U14 DF294:I6
+DF295:I21 DF296:I31 DF297:I16 DF298:I16 DF299:I32 DF300:I16 DF301:U32 DF302:I16 DF303:U32 DF304:U14 DF305:I16
+DF306:I32 DF307:I16 DF308:I32 DF309:I16 DF310:I32 DF311:I24 DF312:I10 DF313:I10 DF314:U2 DF315:U1 DF316:U2
+DF317:U1 DF364:U2 DF371:I27 DF372:I25 DF373:I25 DF374:U1 DF375:U1 DF380:U5 DF381:U5 DF382:U5 DF384:U5 DF388:U1
+DF389:U6 DF391:U4 DF392:U8 DF393:U1 DF409:U3 DF411:U2 DF412:U2 DF413:U4 DF414:U16 DF415:U4 DF417:U1 DF418:U3
+DF419:U4 DF421:U1 DF422_1:U1 DF422_2:U1 DF422_3:U1 DF422_4:U1 DF429:U4 DF430:U16 DF431:I8 DF432:I16 DF433:I22
+DF434:U8 DF435:I16 DF436:I16 DF437:I32 DF438:I16 DF439:U32 DF440:I16 DF441:U32 DF442:U16 DF443:I16 DF444:I32
+DF445:I16 DF446:I32 DF447:I16 DF448:I32 DF449:I24 DF450:I14 DF451:U2 DF452:U10 DF453:U4 DF454:U6 DF455:I8
+DF456:U10 DF457:U1 DF488:U6 DF489:U13 DF490:U4 DF491:I14 DF492:U5 DF493:U17 DF494:I11 DF495:I22 DF496:I24
+DF497:U5 DF498:I18 DF499:I16 DF500:I32 DF501:I18 DF502:U32 DF503:I18 DF504:U32 DF505:U17 DF506:I18 DF507:I32
+DF508:I18 DF509:I32 DF510:I18 DF511:I32 DF512:I24 DF513:I10 DF514:I10 DF515:U1 DF516:U6 DF517:U10 DF518:I22
+DF519:I16 DF520:I8 DF521:U4 DF522:U16 DF523:I8 DF524:I22 DF525:U8 DF526:U10 DF527:U1 DF528:U1 DF529:I15
+DF530:I15 DF531:I15 DF532:I15 DF533:I15 DF534:I15 DF535:I14 DF536:I32 DF537:U16 DF538:U32 DF539:U32 DF540:I32
+DF541:I32 DF542:I22 DF543:I32 DF544:U2 DF545:U2 DF547:U16 DF548:I23 DF549:I23 DF550:I23 DF551:I32 DF552:I32
+DF553:I32 DF554:I25 DF555:I17 DF556:I17 DF557:I17 DF558:I17 DF559:I17 DF560:I17 DF561:I14 DF562:U5 DF564:U16
+DF565:U5 DF567:U1 DF568:U3 DF569:U5 DF571:U20 DF572:U5 DF573:U20 DF574:U5 DF575:U20 DF576:U5 ExtSatInfo:U4
+IDF001:U3 IDF002:U8 IDF004:U4 IDF005:U1 IDF006:U1 IDF007:U4 IDF008:U16 IDF009:U4 IDF012:U8 IDF024:U5 IDF026:U9
+IDF027:I8 IDF029:U1 IDF030:U2 IDF031:U4 IDF032:U1 IDF033:U1 IDF034:U6 IDF041:U9
+"""
+
+
 def field_pins():
     """{name: (kind, width, resolution or None)}"""
     toks = _FIELD_PINS.split()
@@ -250,6 +291,9 @@ def field_pins():
     for i in range(0, len(toks), 4):
         name, kind, width, res = toks[i:i + 4]
         out[name] = (kind, int(width), None if res == "-" else eval(res))  # noqa: the expressions above
+    for t in _FIELD_KINDS_REST.split():
+        name, kw = t.rsplit(":", 1)
+        out.setdefault(name, (kw[0], int(kw[1:]), None))
     return out
 
 
